@@ -13,12 +13,12 @@ def c18(tier):
     plan = QUICK if tier == "quick" else THOROUGH
     for np in (4, 3, 2, 1):
         runs.append(H("c18_gluon", "dist", plan[np], "2" if np > 1 else "1,1", env=ENV, mpi=np, params=dict(salt=np),
-                      timeout_per_case=60, timeout_base=240))
+                      timeout_per_case=15, timeout_base=150))
     if tier == "thorough":
         # same plan, other random inputs, sockets = 2 x 1 core (other thread-pool layout), no streaming policies
         for np in (2, 4):
             runs.append(H("c18_gluon", "dist", 250, "1,1", env=ENV, mpi=np, params=dict(salt=10 + np, streaming=0),
-                          timeout_per_case=60, timeout_base=240))
+                          timeout_per_case=15, timeout_base=150))
     return runs
 
 
